@@ -256,20 +256,54 @@ def wireClass (ctx : List String) (ops : List WireHandoff.Op) : String :=
     | o :: rest => go (hist ++ [o]) rest
   go [] ops
 
+/-- round-tripper mode: a step is lowered to the operations of the hand-off model it causes —
+reading the response to its end and cancelling the call's context both complete the trace of the
+call (status 200+k) unless it is complete already; a failed round trip has completed it (without
+response) before the script starts.  Result: per step its operations and whether the step has an
+observation of its own. -/
+def lowerRT (ctx : List String) (steps : List String) : Option (List WireHandoff.Op × List (List WireHandoff.Op × Bool)) :=
+  let failed := (ctx.zipIdx.filter (fun p => p.1 == "fail")).map (·.2)
+  let pre : List WireHandoff.Op := failed.map (fun k => .complete k 0)
+  let rec go (completed : List Nat) : List String → Option (List (List WireHandoff.Op × Bool))
+    | [] => some []
+    | st :: rest =>
+      match st.splitOn ":" with
+      | ["c", k] => k.toNat?.bind fun k =>
+        (go (k :: completed) rest).map fun r =>
+          ((if completed.contains k then [] else [WireHandoff.Op.complete k (200 + k)]), false) :: r
+      | ["x", k] => k.toNat?.bind fun k =>
+        (go (k :: completed) rest).map fun r =>
+          (WireHandoff.Op.ctxDone k :: (if completed.contains k then [] else [WireHandoff.Op.complete k (200 + k)]), false) :: r
+      | _ => (parseWireOp st).bind fun o => (go completed rest).map fun r => ([o], true) :: r
+  (go failed steps).map fun l => (pre, l)
+
 def wireVerdict (inp impl : Json) : Verdict :=
   if bool (field impl "setAside") then
     { agree := true, holds := true, nontrivial := false, cls := "set-aside-too-slow" } else
-  match (strList (field inp "steps")).mapM parseWireOp with
+  let ctx := strList (field inp "ctx")
+  let rt := str (field inp "via") == "rt"
+  let lowered : Option (List WireHandoff.Op × List (List WireHandoff.Op × Bool)) :=
+    if rt then lowerRT ctx (strList (field inp "steps"))
+    else ((strList (field inp "steps")).mapM parseWireOp).map fun ops =>
+      -- contexts that are done from the start: context events before everything else
+      ((ctx.zipIdx.filter (fun p => p.1 == "cancelled" || p.1 == "expired")).map (fun p => WireHandoff.Op.ctxDone p.2),
+        ops.map fun o => ([o], match o with | .ctxDone _ | .complete _ _ => false | _ => true))
+  match lowered with
   | none => bad "unparsable wire step"
-  | some ops =>
-    let ctx := strList (field inp "ctx")
+  | some (pre, perStep) =>
     let bare := (ctx.zipIdx.filter (fun p => p.1 == "bare")).map (·.2)
-    -- contexts that are done from the start: context events before everything else
-    let pre : List WireHandoff.Op :=
-      (ctx.zipIdx.filter (fun p => p.1 == "cancelled" || p.1 == "expired")).map (fun p => .ctxDone p.2)
+    let ops := perStep.flatMap (·.1)
     let all := pre ++ ops
-    let model := ((WireHandoff.exec (WireHandoff.init bare) all).2.drop pre.length).map renderWireObs
-    let spec := ((HandoffGlue.specObs bare all).drop pre.length).map renderWireObs
+    let modelAll := ((WireHandoff.exec (WireHandoff.init bare) all).2.drop pre.length).map renderWireObs
+    let specAll := ((HandoffGlue.specObs bare all).drop pre.length).map renderWireObs
+    -- per step: the observation of its own operation, nothing for completions / context events
+    let pick (l : List String) : List String :=
+      (perStep.foldl (fun (acc : List String × Nat) p =>
+        (acc.1 ++ [if p.2 then l.getD acc.2 "?" else ""], acc.2 + p.1.length)) ([], 0)).1
+    let model := pick modelAll
+    let spec := pick specAll
+    -- a second completion for one context would be a panic in the model: never generated
+    let sane := !(modelAll.contains "panic")
     let obs := strList (field impl "obs")
     -- giving up before the grace period is over loses nothing when nothing is ever completed:
     -- that is a disagreement with the model, not a violation
@@ -278,7 +312,7 @@ def wireVerdict (inp impl : Json) : Verdict :=
     -- the Tracer behind the wireTracer gets every completed trace, once
     let names := (List.range ctx.length).map (fun k => s!"call-{k}")
     let slotOps : List TracerSlots.Op := names.map .init ++
-      ops.filterMap (fun o => match o with | .complete k t => some (.complete s!"call-{k}" t) | _ => none)
+      all.filterMap (fun o => match o with | .complete k t => some (.complete s!"call-{k}" t) | _ => none)
     let innerSpec := if bool (field inp "tracer") then
         names.map (fun n => match firstComplete n slotOps with | some t => s!"t{t}" | none => "ctx")
       else []
@@ -288,10 +322,11 @@ def wireVerdict (inp impl : Json) : Verdict :=
       else []
     let inner := strList (field impl "inner")
     let holds := holdsObs && inner == innerSpec
+    if !sane then bad "wire script completes one context twice" else
     { agree := obs == model && model == spec && inner == innerModel, holds := holds,
       nontrivial := ops.any (fun o => match o with | .begin _ => true | _ => false) &&
-        ops.any (fun o => match o with | .complete _ _ => true | _ => false),
-      model := toJson model, cls := wireClass ctx ops,
+        all.any (fun o => match o with | .complete _ _ => true | _ => false),
+      model := toJson model, cls := (if rt then "rt," else "") ++ wireClass ctx all,
       why := if !holdsObs then "per-call waiter (examineWireDetails): " ++ firstMismatch obs (spec.map (fun x => [x]))
              else if inner != innerSpec then s!"the Tracer behind the wireTracer holds {inner}, the completed traces are {innerSpec}"
              else if model != spec then "driver: model and history specification differ" else "" }
